@@ -246,5 +246,203 @@ theorem startTag_event_obs {d' : Disp (γ × Flags)} {d : Disp γ} (h : ObsR fal
       intro k' k _ hK
       exact tagTail_obs hK lx
 
+
+/-- **an end tag while the plain run scans**, except in the one case the dispatcher treats differently in
+the two modes: emission is to be resumed at this end tag and `H` did not ask for it (`handle_end_tag_hint`
+then forces `NEXT_END_TAG`, `handle_tag` does not). -/
+theorem endTag_event_obs {d' : Disp (γ × Flags)} {d : Disp γ} (h : ObsR false d' d) (hm : ScanMode H d)
+    (lx : TagLexeme) {name : Range} {hsh : Nat} (hol : lx.outline = .endTag name hsh) {ln : LocalName}
+    (hln : LocalName.new inp name hsh = some ln) :
+    ((({ d with ctl := (H.endTag d.ctl ln).1 } : Disp γ).shouldStopRemoving H = true ∧ (H.endTag d.ctl ln).2.nextEndTag = false)) ∨
+    ((Disp.endTagHint H ln d).2 = .ok .scan ∧
+      (IsPanic (Disp.handleTag (withObs H o) inp lx d').2 ∨
+       ((Disp.handleTag (withObs H o) inp lx d').2 = .ok .lex ∧
+        ObsR false (Disp.handleTag (withObs H o) inp lx d').1 (Disp.endTagHint H ln d).1 ∧
+        ScanMode H (Disp.endTagHint H ln d).1))) ∨
+    ((Disp.endTagHint H ln d).2 = .ok .lex ∧
+      TagOut false (Disp.handleTag (withObs H o) inp lx d') (Disp.handleTag H inp lx (Disp.endTagHint H ln d).1)) := by
+  by_cases hforced : (({ d with ctl := (H.endTag d.ctl ln).1 } : Disp γ).shouldStopRemoving H = true ∧ (H.endTag d.ctl ln).2.nextEndTag = false)
+  · exact Or.inl hforced
+  right
+  have hgf : d.gotFlagsFromHint = false := h.gf
+  obtain ⟨f1, f2, _, f4⟩ := flush_obs (H := H) (o := o) h
+  rw [flush_idle hm.tp] at f1 f2
+  have hc' : (d'.flushPendingText (withObs H o)).1.ctl = (d.ctl, d.flags) := f2.ctl
+  have g2 : (d'.flushPendingText (withObs H o)).1.gotFlagsFromHint = false := f2.gf'
+  have p2 : (d'.flushPendingText (withObs H o)).1.pendingAux = false := f2.pa'
+  have hHO : Disp.handleTag (withObs H o) inp lx d' =
+      DRes.bind ((d'.flushPendingText (withObs H o)).1.adjustFlagsForTag (withObs H o) inp lx)
+        (fun k _ => k.tagTail (withObs H o) inp lx) := by
+    rw [handleTag_eq, DRes.bind_ok' _ f1, g2]
+    simp only [Bool.false_eq_true, if_false]
+  rw [hHO]
+  generalize (d'.flushPendingText (withObs H o)).1 = fl' at f2 f4 hc' g2 p2 ⊢
+  have hadj : fl'.adjustFlagsForTag (withObs H o) inp lx =
+      (({ fl' with ctl := ((H.endTag d.ctl ln).1, (H.endTag d.ctl ln).2), flags := (H.endTag d.ctl ln).2.join o } : Disp (γ × Flags)), Except.ok ()) := by
+    unfold Disp.adjustFlagsForTag
+    rw [if_neg (by rw [p2]; simp), hol]
+    dsimp only
+    rw [hln]
+    dsimp only
+    rw [hc']
+    rfl
+  rw [hadj, DRes.bind_ok' _ rfl]
+  have hdec := f2.decide (o := o) hm.tp f4 (H.endTag d.ctl ln).1 (H.endTag d.ctl ln).2 (fun hl => by cases hl) (Or.inl ho)
+  -- the hint
+  have hf : (if ({ d with ctl := (H.endTag d.ctl ln).1 } : Disp γ).shouldStopRemoving H = true
+      then { (H.endTag d.ctl ln).2 with nextEndTag := true } else (H.endTag d.ctl ln).2) = (H.endTag d.ctl ln).2 := by
+    split
+    · rename_i hst
+      have : (H.endTag d.ctl ln).2.nextEndTag = true := by
+        cases hn : (H.endTag d.ctl ln).2.nextEndTag with
+        | true => rfl
+        | false => exact absurd ⟨hst, hn⟩ hforced
+      generalize (H.endTag d.ctl ln).2 = fe at this ⊢
+      cases fe; simp only at this; subst this; rfl
+    · rfl
+  have hhint : Disp.endTagHint H ln d =
+      (({ d with ctl := (H.endTag d.ctl ln).1, flags := (H.endTag d.ctl ln).2, gotFlagsFromHint := (({ d with ctl := (H.endTag d.ctl ln).1, flags := (H.endTag d.ctl ln).2 } : Disp γ).nextDirective == .lex) } : Disp γ),
+       Except.ok ({ d with ctl := (H.endTag d.ctl ln).1, flags := (H.endTag d.ctl ln).2 } : Disp γ).nextDirective) := by
+    unfold Disp.endTagHint
+    rw [flush_idle hm.tp, DRes.bind_ok' _ rfl]
+    dsimp only
+    rw [hf]
+    rfl
+  rw [hhint]
+  generalize hg' : (H.endTag d.ctl ln).1 = g' at hdec hforced ⊢
+  generalize hfe' : (H.endTag d.ctl ln).2 = fe at hdec hforced ⊢
+  cases hfe : fe.isEmpty with
+  | true =>
+    left
+    simp only [Disp.nextDirective, hfe, if_true]
+    refine ⟨by first | rfl | trivial, ?_⟩
+    have hd2 : ({ d with ctl := g', flags := fe, gotFlagsFromHint := (Directive.scan == Directive.lex) } : Disp γ) =
+        { d with ctl := g', flags := fe } := by
+      cases d; simp only at hgf; subst hgf; rfl
+    rw [hd2]
+    have hnet : fe.nextEndTag = false := by
+      cases fe
+      simp only [Flags.isEmpty, Bool.and_eq_true, Bool.not_eq_true'] at hfe
+      exact hfe.1.2
+    have hstop : ({ d with ctl := g' } : Disp γ).shouldStopRemoving H = false := by
+      cases hs : ({ d with ctl := g' } : Disp γ).shouldStopRemoving H with
+      | false => rfl
+      | true => exact absurd ⟨hs, hnet⟩ hforced
+    have hres : ({ d with ctl := g', flags := fe } : Disp γ).resumeEmission H lx = { d with ctl := g', flags := fe } := by
+      unfold Disp.resumeEmission
+      have : ({ d with ctl := g', flags := fe } : Disp γ).shouldStopRemoving H = false := hstop
+      rw [this]
+      simp
+    have hidle := tagTail_idle (H := H) (inp := inp) (d := ({ d with ctl := g', flags := fe } : Disp γ)) hfe lx hres
+    have hem : H.shouldEmit g' = d.emissionEnabled := by
+      cases hde : d.emissionEnabled with
+      | true =>
+        have h1 : H.shouldEmit d.ctl = true := by rw [← hm.emis]; exact hde
+        have := ed.end_ d.ctl ln h1
+        rw [hg'] at this
+        exact this
+      | false =>
+        unfold Disp.shouldStopRemoving at hstop
+        simp only [hde] at hstop
+        simpa using hstop
+    have hsame : ({ ({ d with ctl := g', flags := fe } : Disp γ) with emissionEnabled := H.shouldEmit g' } : Disp γ) =
+        { d with ctl := g', flags := fe } := by rw [hem]
+    rcases tagTail_obs (H := H) (o := o) (inp := inp) hdec lx with hp | ⟨hR, ⟨e, e1, e2⟩ | ⟨e1, e2⟩⟩
+    · exact Or.inl hp
+    · rw [hidle] at e2; cases e2
+    · rw [hidle] at hR
+      simp only at hR
+      rw [hsame] at hR
+      exact Or.inr ⟨e1, hR, ⟨hfe, hm.tp, by show d.emissionEnabled = H.shouldEmit g'; exact hem.symm⟩⟩
+  | false =>
+    right
+    simp only [Disp.nextDirective, hfe, Bool.false_eq_true, if_false]
+    refine ⟨by first | rfl | trivial, ?_⟩
+    have hH : Disp.handleTag H inp lx ({ d with ctl := g', flags := fe, gotFlagsFromHint := (Directive.lex == Directive.lex) } : Disp γ) =
+        Disp.tagTail H inp lx ({ d with ctl := g', flags := fe } : Disp γ) := by
+      rw [handleTag_eq, flush_idle (by exact hm.tp), DRes.bind_ok' _ rfl]
+      have : (Directive.lex == Directive.lex) = true := rfl
+      simp only [this, if_true]
+      rw [DRes.bind_ok' _ rfl]
+      have e : ({ ({ d with ctl := g', flags := fe, gotFlagsFromHint := true } : Disp γ) with gotFlagsFromHint := false } : Disp γ) =
+          { d with ctl := g', flags := fe } := by
+        cases d; simp only at hgf; subst hgf; rfl
+      rw [e]
+    rw [hH]
+    exact tagTail_obs hdec lx
+
+end
+
+/-! ### back to the scanner -/
+
+section
+variable {H : Controller γ} {inp : Bytes}
+
+theorem adjust_tp (d : Disp γ) (lx : TagLexeme) :
+    (d.adjustFlagsForTag H inp lx).1.textPending = d.textPending := by
+  unfold Disp.adjustFlagsForTag Disp.answerAux
+  dsimp only
+  (repeat' split) <;> rfl
+
+theorem produceTag_tp (d : Disp γ) (lx : TagLexeme) (h : (d.produceTag H inp lx).2 = .ok ()) :
+    (d.produceTag H inp lx).1.textPending = d.textPending := by
+  unfold Disp.produceTag at h ⊢
+  split
+  · rfl
+  · rename_i ft hft
+    rw [hft] at h
+    dsimp only at h ⊢
+    split
+    · rfl
+    · rename_i tok htok
+      rw [htok] at h
+      dsimp only at h
+      rcases emitToken_vspec H ({ d with flags := ft.1 } : Disp γ) inp lx.raw tok with ⟨_, s, hs, _⟩ | ⟨_, _, _, hv⟩
+      · rw [hs] at h; cases h
+      · exact congrArg DView.tp hv
+
+/-- when the plain run's `handle_tag` answers `scan`, its dispatcher is in scan mode -/
+theorem handleTag_scanMode (d : Disp γ) (lx : TagLexeme) (h : (Disp.handleTag H inp lx d).2 = .ok .scan) :
+    ScanMode H (Disp.handleTag H inp lx d).1 := by
+  rw [handleTag_eq] at h ⊢
+  have hfl : (d.flushPendingText H).1.textPending = false := by
+    rcases flushPendingText_vspec H d with ⟨hd, he⟩ | ⟨_, _, _, hv⟩
+    · rw [he]; exact hd
+    · exact congrArg DView.tp hv
+  cases hfr : (d.flushPendingText H).2 with
+  | error e => rw [DRes.bind_err' _ hfr] at h; cases h
+  | ok u =>
+    rw [DRes.bind_ok' _ hfr] at h ⊢
+    generalize (d.flushPendingText H).1 = fl at hfl h ⊢
+    have hadj : (if fl.gotFlagsFromHint then (({ fl with gotFlagsFromHint := false }, .ok ()) : DRes γ Unit)
+        else fl.adjustFlagsForTag H inp lx).1.textPending = false := by
+      split
+      · exact hfl
+      · rw [adjust_tp]; exact hfl
+    generalize (if fl.gotFlagsFromHint then (({ fl with gotFlagsFromHint := false }, .ok ()) : DRes γ Unit)
+        else fl.adjustFlagsForTag H inp lx) = ad at hadj h ⊢
+    cases har : ad.2 with
+    | error e => rw [DRes.bind_err' _ har] at h; cases h
+    | ok u2 =>
+      rw [DRes.bind_ok' _ har] at h ⊢
+      unfold Disp.tagTail at h ⊢
+      have hres : (ad.1.resumeEmission H lx).textPending = false := by
+        unfold Disp.resumeEmission; split <;> exact hadj
+      generalize ad.1.resumeEmission H lx = rs at hres h ⊢
+      cases hpr : (rs.produceTag H inp lx).2 with
+      | error e => rw [DRes.bind_err' _ hpr] at h; cases h
+      | ok u3 =>
+        rw [DRes.bind_ok' _ hpr] at h ⊢
+        have htp := produceTag_tp (H := H) (inp := inp) rs lx (by rw [hpr])
+        dsimp only at h ⊢
+        simp only [Except.ok.injEq] at h
+        refine ⟨?_, ?_, rfl⟩
+        · unfold Disp.nextDirective at h
+          split at h
+          · rename_i he; exact he
+          · cases h
+        · show (rs.produceTag H inp lx).1.textPending = false
+          rw [htp]; exact hres
+
 end
 end LolHtml.Model
